@@ -1730,4 +1730,50 @@ theorem C10_noblank (W : Nat) (hW : 7 < W) (L : Str) (hcl : Clean L) (hnb : stri
           · exact hret x h
           · exact (hdl x h).1.nonblank
 
+/-! ## 10. without the class: refuted by the code (finding C10-F1) -/
+
+/-- `1 0 ` followed by a word of 77 `h` -/
+def longLine : Str := ['1', ' ', '0', ' ', 'h', 'h', 'h', 'h', 'h', 'h', 'h', 'h', 'h', 'h', 'h', 'h', 'h', 'h', 'h', 'h', 'h', 'h', 'h', 'h', 'h', 'h', 'h', 'h', 'h', 'h', 'h', 'h', 'h', 'h', 'h', 'h', 'h', 'h', 'h', 'h', 'h', 'h', 'h', 'h', 'h', 'h', 'h', 'h', 'h', 'h', 'h', 'h', 'h', 'h', 'h', 'h', 'h', 'h', 'h', 'h', 'h', 'h', 'h', 'h', 'h', 'h', 'h', 'h', 'h', 'h', 'h', 'h', 'h', 'h', 'h', 'h', 'h', 'h', 'h', 'h', 'h']
+
+set_option maxRecDepth 8000 in
+theorem longLine_wrapped : wrapLine longLine 80 [] (blanks 5) = [['1', ' ', '0', ' '], [' ', ' ', ' ', ' ', ' ', 'h', 'h', 'h', 'h', 'h', 'h', 'h', 'h', 'h', 'h', 'h', 'h', 'h', 'h', 'h', 'h', 'h', 'h', 'h', 'h', 'h', 'h', 'h', 'h', 'h', 'h', 'h', 'h', 'h', 'h', 'h', 'h', 'h', 'h', 'h', 'h', 'h', 'h', 'h', 'h', 'h', 'h', 'h', 'h', 'h', 'h', 'h', 'h', 'h', 'h', 'h', 'h', 'h', 'h', 'h', 'h', 'h', 'h', 'h', 'h', 'h', 'h', 'h', 'h', 'h', 'h', 'h', 'h', 'h', 'h', 'h', 'h', 'h', 'h', 'h'], [' ', ' ', ' ', ' ', ' ', 'h', 'h']] := by
+  have hcl : Clean longLine := by decide
+  have hnc : isCommentCard longLine = false := by decide
+  have hp : partitionDollar longLine = (longLine, false, []) := by decide
+  have hfit : ¬ ([] : Str).length + longLine.length ≤ 80 := by decide
+  unfold wrapLine
+  simp only [expandTabs_clean _ _ hcl, isCommentLine_eq, hnc, hfit, hp, Bool.false_eq_true, if_false]
+  have hw : textwrapWrap 80 [] (blanks 5) longLine = [['1', ' ', '0', ' '], [' ', ' ', ' ', ' ', ' ', 'h', 'h', 'h', 'h', 'h', 'h', 'h', 'h', 'h', 'h', 'h', 'h', 'h', 'h', 'h', 'h', 'h', 'h', 'h', 'h', 'h', 'h', 'h', 'h', 'h', 'h', 'h', 'h', 'h', 'h', 'h', 'h', 'h', 'h', 'h', 'h', 'h', 'h', 'h', 'h', 'h', 'h', 'h', 'h', 'h', 'h', 'h', 'h', 'h', 'h', 'h', 'h', 'h', 'h', 'h', 'h', 'h', 'h', 'h', 'h', 'h', 'h', 'h', 'h', 'h', 'h', 'h', 'h', 'h', 'h', 'h', 'h', 'h', 'h', 'h'], [' ', ' ', ' ', ' ', ' ', 'h', 'h']] := by
+    simp [longLine, textwrapWrap, munge, expandTabs, expandTabsAux, splitChunks, wrapChunks, oneLine, fillLine,
+      finishLine, blanks, isTwWs, Gen.textwrapExpandTabs, Gen.textwrapReplaceWhitespace, Gen.textwrapWhitespaceCodes,
+      Gen.textwrapTabsize]
+  rw [hw]
+  decide
+
+/-- the round trip claimed for every card of plain, non-blank lines — without the class `LineOK` -/
+def C10_roundtrip_statement : Prop :=
+  ∀ e ∈ Gen.lineLength, ∀ (s : Str) (src : WCard),
+    (splitLines s).filter stripNonEmpty = src.lines → CardOK src → (∀ l ∈ src.lines, Clean l) →
+    ∃ o os, (wrapStringWith s e.2 true).1 = o :: os ∧ CardOK ⟨o, os⟩ ∧
+      obsCard (readCard ⟨o, os⟩) = obsCard (readCard src)
+
+/-- **C10_roundtrip_refuted** — the code refutes it (finding C10-F1): in the 80-column regime the card `1 0 h…h` with a
+    77-character word is written on three lines and read back with the words `1 0 h×75 hh`. -/
+theorem C10_roundtrip_refuted : ¬ C10_roundtrip_statement := by
+  intro h
+  have hcl : ∀ l ∈ (⟨longLine, []⟩ : WCard).lines, Clean l := by
+    intro l hl
+    simp only [FileWrite.WCard.lines, List.mem_cons, List.mem_nil_iff, or_false] at hl
+    subst hl; decide
+  obtain ⟨o, os, he, _, hobs⟩ := h ((6, 1, 0), 80) (by decide) longLine ⟨longLine, []⟩ (by decide)
+    ((FileWrite.cardOKb_iff _).mp (by decide)) hcl
+  rw [wrapStringWith_eq] at he
+  have hsl : (splitLines longLine).filter stripNonEmpty = [longLine] := by decide
+  rw [hsl] at he
+  simp only [wrapCard, List.flatMap_cons, List.flatMap_nil, List.append_nil, longLine_wrapped] at he
+  injection he with h1 h2
+  subst h1 h2
+  have := congrArg Prod.fst hobs
+  revert this
+  decide
 end MontePyVerif.C10
